@@ -6,7 +6,8 @@ ENTRY = dict(
         prop_file="Properties/C04.v",
         corr_files=["Corr/C04Corr.v"],
         theorems=["c04_exact_complete", "c04_no_zero", "c04_count_sum", "c04_unbiased", "c04_infinite",
-                  "c04_refuses", "c04_machine_refines_spec", "c04_final_sort", "c04_facts"],
+                  "c04_refuses", "c04_machine_refines_spec", "c04_final_sort", "c04_never_crashes", "c04_always_served",
+                  "c04_one_draw_bridge_partial", "c04_facts"],
         allowed_axioms=[],
         facts=["nonzero_atol"],
         harness="c04",
@@ -23,8 +24,10 @@ ENTRY = dict(
                    "contains the repaired behaviour of finding F9. Model (specification AND step machine, permutation wrapper, weights, "
                    "draw-tape sampler, expectation functional, final sort) is run against the implementation on >1000 generated cases "
                    "per run, the sequence of generator yields included; for samples_needed<=3 every answer sequence of the oracle is "
-                   "enumerated. NOT proved: that the three remaining `assert`s of _generate_qpd_weights/_populate_samples are "
-                   "unreachable (the model returns Crashed there; never observed).",
+                   "enumerated. Totality: on valid input, any sorting permutations and any admissible tape the model never answers "
+                   "Crashed (all remaining asserts unreachable) and, when every basis has an entry above the cut-off, N>=1 is served. "
+                   "The link between the tape sampler `populate` and the expectation functional `ecount` is proved for ONE draw "
+                   "(c04_one_draw_bridge_partial); for n draws it is compared on exhaustively enumerated trees only.",
         level_note=STD_NOTE + "No axioms. Modelling assumptions: O-choice (numpy.random.choice(range(n),k,p) returns k indices, each of "
                    "positive probability; E[count_i]=k*p_i; different calls independent) -- the support part is monitored on every case, "
                    "the law enters only through the expectation functional; np.argsort(cp)[::-1] returns SOME descending permutation "
